@@ -10,6 +10,8 @@ def _fields(req):
 
 def nontrivial(req, obs):
     # the function was inside the modelled subset, was exported, and at least one argument vector ran to completion
+    if req.startswith("C01.prim\t"):
+        return True
     return obs.startswith("ast ") and " r=" in obs
 
 
